@@ -7,6 +7,7 @@ import (
 	"fmt"
 	"math/rand"
 	"os"
+	"strings"
 
 	"verifharness/exec"
 	"verifharness/tr"
@@ -42,15 +43,26 @@ func runWMPT(args []string) (map[string]any, error) {
 			}
 			tid++
 			nTLC++
+			if h.Mode == "replay" {
+				// a saved counterexample: tokens, universe and scale are final
+				exec.RunWMPT(w, in, st, tid, h)
+				continue
+			}
 			if nTLC%3 != 0 {
 				// make values distinct per key (no content shared between positions)
 				h.Mode = "tlc-distinct"
 				for i := range h.Ops {
 					if h.Ops[i].Op == "update" {
-						h.Ops[i].V = fmt.Sprintf("%s#%d", h.Ops[i].V, h.Ops[i].K)
-						if nTLC%4 == 1 {
-							h.Ops[i].V += exec.LongPad(h.Ops[i].K)
+						// "<value>^<w>" (the same value under another weight): the explicit weight stays at the end
+						base, wsuf := h.Ops[i].V, ""
+						if j := strings.LastIndexByte(base, '^'); j >= 0 {
+							base, wsuf = base[:j], base[j:]
 						}
+						base = fmt.Sprintf("%s#%d", base, h.Ops[i].K)
+						if nTLC%4 == 1 {
+							base += exec.LongPad(h.Ops[i].K)
+						}
+						h.Ops[i].V = base + wsuf
 					}
 				}
 			} else {
